@@ -34,9 +34,10 @@ class DocEngine:
     @classmethod
     def gen_cfg(cls, rng, prop, tier):
         cfg = {}
-        cfg["max_steps"] = rng.choice([4, 6, 8, 10, 14, 18, 25], "max_steps")
-        cfg["max_saves"] = 6
-        cfg["p_fault"] = rng.choice([0.0, 0.0, 0.0, 0.25], "p_fault") if prop in ("C03", "C04", "C11") else 0.0
+        deep = tier == "thorough"
+        cfg["max_steps"] = rng.choice([4, 6, 8, 10, 14, 18, 25] + ([32, 40] if deep else []), "max_steps")
+        cfg["max_saves"] = 10 if deep else 6
+        cfg["p_fault"] = rng.choice([0.0, 0.0, 0.0, 0.25] + ([0.4] if deep else []), "p_fault") if prop in ("C03", "C04", "C11") else 0.0
         cfg["p_clock"] = rng.choice([0.0, 0.3, 0.7], "p_clock")
         cfg["p_touch"] = rng.choice([0.05, 0.2, 0.4], "p_touch")
         cfg["p_save"] = rng.choice([0.15, 0.25, 0.4], "p_save")
@@ -174,6 +175,9 @@ class DocEngine:
         n = self.counter
         if name == "touch":
             op["part"] = rng.choice(["content", "meta", "styles", "settings", "manifest"], "part")
+            if rng.chance(self.cfg["p_fault"], "rfault?"):
+                # an I/O error in the middle of a lazy load
+                op["fault"] = {"site": rng.choice(["zip_read", "read_bytes", "zip_open_r"], "rfsite"), "k": 1, "errno": rng.choice(["EIO", "EACCES"], "rferr")}
         elif name == "edit":
             op["kind"] = rng.choice(["para", "heading", "list", "table", "image", "meta_title", "meta_user", "meta_keyword", "style", "delete_last"] + (["numlist", "numlist"] if self.prop == "C15" else []), "ekind")
             op["n"] = n
@@ -562,7 +566,24 @@ class DocEngine:
         doc, st = self.sut.doc, self.sut.store
         name = ds.SHORT[op["part"]]
         was = name in st.touched
+        fault = op.get("fault")
+        if fault:
+            self.env.arm(fault)
         res, exc = self._call(lambda: doc.get_part(op["part"]).root, "touch")
+        fired = self.env.disarm() if fault else False
+        if fired:
+            self.n_faults += 1
+            self.stats.probe("fault:" + fault["site"] + ":" + fault["errno"])
+            if exc is not None:
+                # fail-stop: the load may fail; a retry without fault must then succeed and
+                # give the stored part (nothing half-loaded may be kept)
+                self.stats.probe("fault_survived_by_raise")
+                res, exc = self._call(lambda: doc.get_part(op["part"]).root, "touch")
+                if exc is not None and self.prop == "C03":
+                    self._outcome = "touch:retry-exc"
+                    return [Violation("C03", "retry-after-failed-load-raises", "touch", self._feats() + ["part:" + op["part"], "fault:" + fault["site"]], type(exc).__name__, f"{type(exc).__name__}: {exc}")]
+            else:
+                self.stats.probe("fault_swallowed_load_returned")
         self._outcome = f"touch:{'exc' if exc else 'ok'}"
         if exc is not None:
             return [Violation(self.prop, "raises", "touch", self._feats(), type(exc).__name__, f"{type(exc).__name__}: {exc}")] if self.prop == "C03" else []
